@@ -158,7 +158,30 @@ func TestC02(t *testing.T) {
 		prevT := lo - secNs
 		prevIdx := -1
 		restartEvery := rapid.IntRange(0, 3).Draw(t, "exportImport") // 0: never; n: before every n-th block
+		discardedEvery := rapid.IntRange(0, 3).Draw(t, "discardedUpdate")
 		for i, T := range ts {
+			if discardedEvery > 0 && i > 0 && i%discardedEvery == 0 {
+				// an update of the schedule that is executed and thrown away - what x/gov does with a passed
+				// proposal whose later message fails, and what a simulation of a MsgExec does: ten times the
+				// amounts on a branch of the state that is never written.  The configured schedule stays in force.
+				other := params
+				other.Minters = nil
+				for _, m := range params.Minters {
+					c := *m
+					switch v := m.Config.GetCachedValue().(type) {
+					case *mintertypes.LinearMinting:
+						c.Config = mustAny(&mintertypes.LinearMinting{Amount: v.Amount.MulRaw(10)})
+					case *mintertypes.ExponentialStepMinting:
+						c.Config = mustAny(&mintertypes.ExponentialStepMinting{Amount: v.Amount.MulRaw(10), StepDuration: v.StepDuration, AmountMultiplier: v.AmountMultiplier})
+					}
+					other.Minters = append(other.Minters, &c)
+				}
+				branch, _ := ctx.CacheContext()
+				res := RunMsg(w.App, branch.WithBlockTime(nsTime(prevT)), &mintertypes.MsgUpdateMintersParams{Authority: GovAuthority(), StartTime: other.StartTime, Minters: other.Minters})
+				if res.OK() {
+					classes["schedule_update_executed_and_discarded"] = true
+				}
+			}
 			if restartEvery > 0 && i > 0 && i%restartEvery == 0 {
 				// the chain is exported and restarted from the export between two blocks: the module's
 				// genesis round trip (JSON) must not change what the schedule emits afterwards
